@@ -190,6 +190,13 @@ class View:
                 if not CTX.decide(b == ax[1]):
                     return False, None
             else:
+                lin = b.as_lin()
+                if lin is not None:
+                    # a cell index addressing a whole 1-D cell vector: always inside
+                    if is_lit(ax[1], 0) and dims_equal(self.shape[ax[2]], iprod(lin.shape)):
+                        idx[ax[2]] = b
+                        continue
+                    raise OutOfReach('cell index %s against a partial view of a cell vector' % (b,))
                 rel = b - ax[1]
                 if not CTX.decide(rel >= 0):
                     return False, None
@@ -717,7 +724,7 @@ class SymNDArray:
     def copy(self):
         if self.blocks is not None and self.buf.state is None:
             return self
-        out = SymNDArray.from_fn(self.shape, self.snap(), self.kind, origin='copy')
+        out = SymNDArray.from_fn(self.shape, self.snap(), self.kind, origin='copy', blocks=self.blocks)
         out.affine = self.affine
         return out
 
@@ -726,9 +733,14 @@ class SymNDArray:
 
     def __deepcopy__(self, memo):
         # ndarray.__deepcopy__: an owning array of the same class; __array_finalize__ sees the original
-        buf = Buffer(self.shape, FnState(self.snap()), self.kind, origin='deepcopy')
-        out = type(self)._make(buf, View.identity(self.shape), base=None, finalize_from=self)
+        if self.blocks is not None and self.buf.state is None:
+            buf = Buffer(self.shape, None, self.kind, origin='deepcopy')
+        else:
+            buf = Buffer(self.shape, FnState(self.snap()), self.kind, origin='deepcopy')
+        out = type(self)._make(buf, View.identity(self.shape), base=None, blocks=self.blocks, finalize_from=self)
         out.affine = self.affine
+        if hasattr(self, 'elements'):
+            out.elements = self.elements
         return out
 
     def view(self, cls=None):
